@@ -82,6 +82,19 @@ CHECKS = {
         "Python are skipped; one listed known finding (bare constructors in the compiled engine).",
         "DESIGN.md 4/C07",
     ),
+    "C09": (
+        "exploration",
+        "enumerated hostile-program grammar (call-target shapes x method names x embedding contexts) + random "
+        "nesting (Hypothesis), invariant oracle over instrumented canary records",
+        "About 13 000 hostile selector programs per quick run (every alternative AST spelling of a call target, every "
+        "whitelisted helper/type leaf name as method name, dunder attributes at every depth, 23 embedding contexts, "
+        "nested up to 3 levels) are evaluated by the interpreted selector on a record holding canary objects: the "
+        "canary log and tripwires must stay empty, every expression must be refused, the record must be unchanged; "
+        "benign whitelisted calls in the same contexts must still be accepted.",
+        "'No accepted hostile shape exists' is bounded by the shape grammar (derived from every ast node kind that "
+        "can be Call.func or lie on the path to it).",
+        "DESIGN.md 4/C09",
+    ),
 }
 
 NOT_APPLICABLE = {}
